@@ -63,19 +63,36 @@ Mutator(c) == c.op \in {"Join", "Leave"}
 (* an answer: b = added / removed / exists / found, n = node of the member found, *)
 (* l = a length, o = the number of other members                                   *)
 Rep(b, n, ln, o) == [b |-> b, n |-> n, l |-> ln, o |-> o]
-(* the sequential table's answer to call c in the current state *)
-Answer(c) ==
-  CASE c.op = "Join"       -> Rep(B2N(Added(c.addr)), None, 0, 0)
-    [] c.op = "Leave"      -> Rep(B2N(Removed(c.addr)), None, 0, 0)
-    [] c.op = "Exists"     -> Rep(B2N(Exists(c.addr)), None, 0, 0)
-    [] c.op = "Get"        -> Rep(B2N(Exists(c.addr)), present[c.addr], 0, 0)
-    [] c.op = "Len"        -> Rep(0, None, NLen, 0)
-    [] c.op = "MembersLen" -> Rep(0, None, MembersLen(c.node), 0)
-    [] c.op = "Others"     -> Rep(B2N(FoundIn(c.node, c.addr)), None, MembersLen(c.node), Others(c.node, c.addr))
-Effect(c) ==
-  CASE c.op = "Join"  -> Join(c.addr, c.node)
-    [] c.op = "Leave" -> Leave(c.addr)
-    [] OTHER          -> UNCHANGED present
+(* the sequential table over an explicit map P (Addr -> Node \cup {None}): the answer to *)
+(* call c in P and the map after c; used with P = present below, with the maps of an     *)
+(* explicit order of calls in MembersPool.tla                                            *)
+MembersOfIn(P, n) == {a \in Addr : P[a] = n}
+AnswerIn(P, c) ==
+  CASE c.op = "Join"       -> Rep(B2N(P[c.addr] = None), None, 0, 0)
+    [] c.op = "Leave"      -> Rep(B2N(P[c.addr] # None), None, 0, 0)
+    [] c.op = "Exists"     -> Rep(B2N(P[c.addr] # None), None, 0, 0)
+    [] c.op = "Get"        -> Rep(B2N(P[c.addr] # None), P[c.addr], 0, 0)
+    [] c.op = "Len"        -> Rep(0, None, Cardinality({a \in Addr : P[a] # None}), 0)
+    [] c.op = "MembersLen" -> Rep(0, None, Cardinality(MembersOfIn(P, c.node)), 0)
+    [] c.op = "Others"     -> Rep(B2N(c.addr \in MembersOfIn(P, c.node)), None,
+                                  Cardinality(MembersOfIn(P, c.node)),
+                                  Cardinality(MembersOfIn(P, c.node) \ {c.addr}))
+AfterIn(P, c) ==
+  CASE c.op = "Join"  -> [P EXCEPT ![c.addr] = c.node]
+    [] c.op = "Leave" -> [P EXCEPT ![c.addr] = None]
+    [] OTHER          -> P
+Answer(c) == AnswerIn(present, c)
+Effect(c) == present' = AfterIn(present, c)
+(* the two layers agree: the answers above are the answers of the sequential reads *)
+AnswersAgree ==
+  /\ \A a \in Addr : /\ AnswerIn(present, [op |-> "Exists", addr |-> a, node |-> None]).b = B2N(Exists(a))
+                      /\ AnswerIn(present, [op |-> "Leave", addr |-> a, node |-> None]).b = B2N(Removed(a))
+                      /\ \A n \in Node :
+                            /\ AnswerIn(present, [op |-> "Join", addr |-> a, node |-> n]).b = B2N(Added(a))
+                            /\ AnswerIn(present, [op |-> "Others", addr |-> a, node |-> n])
+                                  = Rep(B2N(FoundIn(n, a)), None, MembersLen(n), Others(n, a))
+  /\ \A n \in Node : AnswerIn(present, [op |-> "MembersLen", addr |-> None, node |-> n]).l = MembersLen(n)
+  /\ AnswerIn(present, [op |-> "Len", addr |-> None, node |-> None]).l = NLen
 
 Call(g, c) == /\ pend[g] = Idle
               /\ pend' = [pend EXCEPT ![g] = [st |-> "called", c |-> c]]
